@@ -541,9 +541,14 @@ type c15Case struct {
 	Steps    []matcherStep `json:"matchers"`
 	Test     string        `json:"test"`
 	Newline  bool          `json:"final_newline"` // yaml: document ends with a newline
+	// Spaced, if set: the JSON text actually passed in (the tree with insignificant whitespace: an indented fixture)
+	Spaced BS `json:"spaced_text,omitempty"`
 }
 
 func (c c15Case) docText() string {
+	if c.Kind != "yaml" && len(c.Spaced) > 0 {
+		return string(c.Spaced)
+	}
 	if c.Kind == "yaml" {
 		s := renderYAML(c.Tree)
 		if !c.Newline {
@@ -703,6 +708,9 @@ func genC15(t *rapid.T) c15Case {
 			}
 		}
 		c.Form = rapid.SampledFrom([]string{"string", "bytes", "bytes", "value"}).Draw(t, "form")
+		if c.Form != "value" && rapid.Bool().Draw(t, "spaced") {
+			c.Spaced = BS(c.Tree.Spaced(t))
+		}
 	}
 	cur := c.Tree
 	n := rapid.IntRange(1, 4).Draw(t, "nmatchers")
@@ -908,7 +916,7 @@ func checkC15Reuse(c c15Case, specs []MatcherSpec, form, storedFresh string) err
 	}
 	text := func(n JNode) string {
 		cc := c
-		cc.Tree = n
+		cc.Tree, cc.Spaced = n, ""
 		return cc.docText()
 	}
 	warmForm := form
@@ -985,6 +993,10 @@ func normalizeNumbers(v any) any {
 func classifyC15(c c15Case) ([]string, bool) {
 	cls := []string{"kind_" + c.Kind, "form_" + c.Form}
 	nt := false
+	if len(c.Spaced) > 0 && c.Form == "bytes" {
+		cls = append(cls, "indented_bytes_input")
+		nt = true
+	}
 	if len(c.Steps) >= 2 {
 		cls = append(cls, "two_or_more_matchers")
 		nt = true
